@@ -87,9 +87,9 @@ def run(ctx):
         # dense chunk map: only with the malloc mark-sweep build, where it builds
         try:
             ctx.build("gcdrive", features=["malloc_mark_sweep"])
-            for p in ["MarkSweep", "Immix", "SemiSpace", "GenImmix"]:
+            for p in ["Immix", "SemiSpace", "GenImmix", "StickyImmix"]:  # (plan MarkSweep would allocate in the MallocSpace: outside this check)
                 runs.append(sc.SRun(p, feats=["malloc_mark_sweep"], name="lkmms", heap=24,
-                                    sems="0,1,2" if p == "MarkSweep" else "0,1,2,6", programs=0,
+                                    sems="0,1,2,6", programs=0,
                                     seed_off=4, extra=["--mode", "lookup", "--rounds", "2"]))
         except vf.ToolError as e:
             ctx.assumptions.append("malloc_mark_sweep build omitted (does not build): %s" % e)
@@ -98,6 +98,24 @@ def run(ctx):
     st = sc.validate_all(ctx, items, sd, TRACE_SPEC[0], TRACE_SPEC[1], keyfn_of,
                          "address lookup rejected by AddrSpace", "LOOKUP_STATS")
     ctx.sample_lines(items[0][1], 4, 400)
+    if ctx.tier != "quick":
+        demo_src = next(out for r, out, _ in items if r.plan == "Immix" and not r.layout)
+
+        def unresolve(lines):      # a granted address reported as unresolved
+            for k, x in enumerate(lines):
+                if x.startswith('{"ev":"Lookup","why":"grantMid"') and '"sft":"immix"' in x and '"mapped":"t"' in x:
+                    return lines[:k] + [x.replace('"sft":"immix"', '"sft":"empty"')] + lines[k + 1:]
+            return None
+
+        def misattribute(lines):   # an address below the heap reported as belonging to a space
+            for k, x in enumerate(lines):
+                if x.startswith('{"ev":"Lookup","why":"low"'):
+                    return lines[:k] + [x.replace('"sft":"empty"', '"sft":"immix"').replace('"in":"f"', '"in":"t"')] + lines[k + 1:]
+            return None
+        sc.binding_demo(ctx, sd, TRACE_SPEC[0], TRACE_SPEC[1], demo_src, "unresolved", unresolve,
+                        "C31:granted-unresolved")
+        sc.binding_demo(ctx, sd, TRACE_SPEC[0], TRACE_SPEC[1], demo_src, "misattributed", misattribute,
+                        "C31:sft-")
     ctx.cov["driver"] = st
     ctx.cov["exhaustive"] = False
     ctx.cov["rule"] = ("rows = addresses queried (each row = four real lookups); granted = rows whose "
